@@ -466,7 +466,15 @@ def stringify_result(r, brackets_for_frac=False):
     elif isinstance(r, str):
         return "\"" + r + "\""
     elif isinstance(r, Interval):
-        return "[" + stringify_result(r.a) + ", " + stringify_result(r.b) + "]"
+        a, b = stringify_result(r.a), stringify_result(r.b)
+        if brackets_for_frac and frac(a) > frac(b):
+            # The text is going to be parsed again, and rounding a float
+            # bound to the display precision has carried it across the other
+            # bound ([1/3, 0.3333334] -> [1/3, 0.333333], which reads back as
+            # the empty interval): give the floats all their digits.
+            a, b = ("{:.17g}".format(x) if isinstance(x, float)
+                    else stringify_result(x) for x in (r.a, r.b))
+        return "[" + a + ", " + b + "]"
     elif isinstance(r, Instant):
         return "#" + str(r) + "#"
     return str(r)
